@@ -6,7 +6,7 @@ SPEC = {
     'coq_check': 'C04_check',
     'parts': [
         {'pkg': 'commit', 'src': 'harness/commit/c04_test.go', 'test': 'TestVerif_C04_history', 'fakes': True,
-         'sinks': {'C04_transmit': 'tr_judge', 'C04_final': 'fin_judge'}, 'n': {'quick': 40, 'thorough': 1500}},
+         'sinks': {'C04_transmit': 'tr_judge', 'C04_final': 'fin_judge', 'C04_round': 'rd_judge'}, 'n': {'quick': 40, 'thorough': 1500}},
         {'pkg': 'commit/merkleroot', 'pkgname': 'merkleroot', 'src': 'harness/commit/merkleroot/c04_test.go', 'test': 'TestVerif_C04_state', 'fakes': True,
          'sinks': {'C04_state': 'st_judge'}, 'n': {'quick': 800, 'thorough': 30000}},
     ],
@@ -16,7 +16,7 @@ SPEC = {
             'off-ramp numbers / on-ramp numbers / intervals, tree size 2 / 4 / 256, attested reports lost, delayed 0-5 rounds, sent by two '
             'transmitters, mined one step late); one case per ShouldTransmitAcceptedReport evaluation (roots with ground-truth root bit, cursor, '
             'reader failure) and one per history (all landed reports, final off-ramp content, outcome divergences between the 3 honest oracles). '
-            'C04_state: ValidateMerkleRootsState on generated roots x cursors (start = / ahead of / behind the cursor, duplicate chains, '
+            'C04_round: every round of those histories as (previous outcome, query, decoded attributed observations) -> outcome, judged against the composition of the C01 and C03 models (whole-plugin wiring of commit.Plugin.Outcome). C04_state: ValidateMerkleRootsState on generated roots x cursors (start = / ahead of / behind the cursor, duplicate chains, '
             'reader error, short and long answers). non-trivial = report has roots / history landed >= 2 reports; distinct by full input',
     'trusted': ['the off-ramp contract model (OffRamp.commit: root accepted iff minSeqNr == stored next and min <= max; cursor := max+1; any failing root reverts the report)',
                 'libocr: every honest oracle gets the same validated observation list; attested reports are only handed to ShouldAccept/ShouldTransmit',
